@@ -180,3 +180,183 @@ Proof.
   - destruct HR as [H1 H2 H3 H4 H5]. intros [= <- <-]. eexists. split; [reflexivity|].
     constructor; rcbn; auto.
 Qed.
+
+(* ---- one log entry ------------------------------------------------------------------------ *)
+Definition frel (f f5 : frame) : Prop :=
+  match f, f5 with
+  | FK ms, FK sms => sms = pi ms
+  | FCb _, FCb _ => True
+  | _, _ => False
+  end.
+Definition Rc (c : config) (c5 : config5) : Prop :=
+  R (fst c) (fst c5) /\ Forall2 frel (snd c) (snd c5).
+
+Lemma frel_FK ms f5 : frel (FK ms) f5 -> f5 = FK (pi ms).
+Proof. destruct f5; cbn; [now intros ->|tauto]. Qed.
+Lemma frel_FCb rest f5 : frel (FCb rest) f5 -> exists r5, f5 = FCb r5.
+Proof. destruct f5; cbn; [tauto|eauto]. Qed.
+
+Lemma pi_keep m ms : pim m = [m] -> pi (m :: ms) = m :: pi ms.
+Proof. unfold pi. cbn [flat_map]. now intros ->. Qed.
+
+Lemma lstep_sim p sc n c c5 x c' :
+  Rc c c5 -> lstep p sc n c x = Some c' -> exists c5', lstep5 p c5 x = Some c5' /\ Rc c' c5'.
+Proof.
+  destruct c as [s stk], c5 as [ss sstk]. intros [HR HF]. cbn [fst snd] in HR, HF.
+  assert (HE := R_ents _ _ HR). assert (HD := R_dead _ _ HR).
+  destruct x as [a|r x|k i e w| |]; cbn [lstep].
+  - (* LAct *)
+    destruct stk as [|[ms|[|a' rest]] stk']; try discriminate.
+    inversion HF as [|f f5 l l5 F1 F2]; subst. apply frel_FCb in F1. destruct F1 as [r5 ->].
+    destruct (op_eqb a a' && script_ok a) eqn:C; [|discriminate].
+    apply andb_true_iff in C. destruct C as [_ C].
+    destruct (compile p s a None) as [[s1 ms]|] eqn:CP; [|discriminate].
+    destruct (run_micro p s1 ms) as [s2 ms2] eqn:RM. intros [= <-].
+    destruct (compile_sim _ _ _ _ _ _ _ HR CP) as (ss1 & CP5 & HR1).
+    destruct (run_sim _ _ _ _ _ _ HR1 RM) as (ss2 & RM5 & HR2).
+    cbn [lstep5]. rewrite C, CP5, RM5. eexists. split; [reflexivity|].
+    split; [exact HR2|]. cbn [snd]. constructor; [reflexivity|]. constructor; [exact I|exact F2].
+  - (* LRet *)
+    destruct stk as [|[[|[]]|] stk']; try discriminate.
+    destruct l; try discriminate.
+    inversion HF as [|f f5 l l5 F1 F2]; subst. apply frel_FK in F1. subst f5.
+    destruct (oz_eqb r r0 && (x =? x0)) eqn:C; [|discriminate]. intros [= <-].
+    cbn [lstep5 pi flat_map pim app]. rewrite C. eexists. split; [reflexivity|]. split; assumption.
+  - (* LCall *)
+    destruct stk as [|[[|m ms]|] stk']; try discriminate.
+    inversion HF as [|f f5 l l5 F1 F2]; subst. apply frel_FK in F1. subst f5.
+    destruct m as [i0|i0|k0 i0 e0|e0 ty0 i0 d0|r0 x0| | |gs]; try discriminate.
+    + (* a notification of the running operation *)
+      destruct (_ && w); [|discriminate]. intros [= <-].
+      rewrite pi_keep by reflexivity. cbn [lstep5]. eexists. split; [reflexivity|].
+      split; [exact HR|]. cbn [snd]. constructor; [exact I|]. constructor; [reflexivity|exact F2].
+    + (* the drain turns to the next marked entity *)
+      rewrite pi_keep by reflexivity. cbn [lstep5]. rewrite <- HE, <- HD.
+      destruct (alookup e (ents s)) as [r|]; [|discriminate].
+      destruct (ck_eqb k CRem && w && zmem e (dead s)) eqn:C; [|discriminate].
+      apply andb_true_iff in C. destruct C as [_ C]. rewrite C.
+      destruct (run_micro p _ (row_micros p e r ++ MDrain :: ms)) as [s2 ms2] eqn:RM.
+      destruct (run_sim _ _ _ _ _ _ (R_adel s ss e HR) RM) as (ss2 & RM5 & HR2).
+      rewrite pi_app, pi_row, pi_keep in RM5 by reflexivity. rewrite HE, HD in *. rewrite RM5.
+      destruct ms2 as [|[i1|i1|k1 i1 e1|e1 ty1 i1 d1|r1 x1| | |gs1] ms2]; try discriminate.
+      destruct k1; try discriminate.
+      destruct ((i =? i1) && (e =? e1)); [|discriminate]. intros [= <-].
+      rewrite pi_keep by reflexivity. eexists. split; [reflexivity|].
+      split; [exact HR2|]. cbn [snd]. constructor; [exact I|]. constructor; [reflexivity|exact F2].
+    + (* a postponed notification is released *)
+      destruct (take_relay k i e gs) as [gs'|]; [|discriminate]. destruct w; [|discriminate].
+      intros [= <-]. change (pi (MRelease gs :: ms)) with (MRelease [] :: pi ms). cbn [lstep5].
+      eexists. split; [reflexivity|]. split; [exact HR|]. cbn [snd].
+      constructor; [exact I|]. constructor; [reflexivity|exact F2].
+  - (* LEnd *)
+    destruct stk as [|[|[|]] [|[ms|] stk']]; try discriminate.
+    inversion HF as [|f f5 l l5 F1 F2]; subst. apply frel_FCb in F1. destruct F1 as [r5 ->].
+    inversion F2 as [|g g5 l' l5' G1 G2]; subst. apply frel_FK in G1. subst g5.
+    destruct (run_micro p s ms) as [s2 ms2] eqn:RM. intros [= <-].
+    destruct (run_sim _ _ _ _ _ _ HR RM) as (ss2 & RM5 & HR2).
+    cbn [lstep5]. rewrite RM5. eexists. split; [reflexivity|]. split; [exact HR2|]. cbn [snd].
+    constructor; [reflexivity|exact G2].
+  - (* LProc *)
+    destruct stk as [|[[|m ms]|] stk']; try discriminate.
+    destruct m; try discriminate.
+    inversion HF as [|f f5 l l5 F1 F2]; subst. apply frel_FK in F1. subst f5.
+    destruct (run_micro p s ms) as [s2 ms2] eqn:RM. intros [= <-].
+    destruct (run_sim _ _ _ _ _ _ HR RM) as (ss2 & RM5 & HR2).
+    rewrite pi_keep by reflexivity. cbn [lstep5]. rewrite RM5.
+    eexists. split; [reflexivity|]. split; [exact HR2|]. cbn [snd]. constructor; [reflexivity|exact F2].
+Qed.
+
+Lemma lrun_sim p sc log : forall n c c5 c',
+  Rc c c5 -> lrun p sc n c log = Some c' -> exists c5', lrun5 p c5 log = Some c5' /\ Rc c' c5'.
+Proof.
+  induction log as [|x log IH]; intros n c c5 c' H; cbn [lrun lrun5].
+  - intros [= <-]. eauto.
+  - destruct (lstep p sc n c x) as [c1|] eqn:E; [|discriminate]. intros L.
+    destruct (lstep_sim _ _ _ _ _ _ _ H E) as (c51 & -> & H1). eapply IH; eauto.
+Qed.
+
+Lemma R_prune s ss : R s ss ->
+  R s (upd ss (att ss) (pend ss) (filter (fun e => zmem e (pend ss)) (bad ss))).
+Proof.
+  intros [H1 H2 H3 H4 H5]. constructor; rcbn; auto.
+  intros x Hx T. apply filter_In. split; [now apply H5|]. apply zmem_In. now rewrite <- H2.
+Qed.
+
+(* a top-level operation through the machine *)
+Lemma mstep_sim p sc s ss o ob s' :
+  R s ss -> mstep p sc s o ob = Some s' -> exists ss', mstep5 p ss o ob = Some ss' /\ R s' ss'.
+Proof.
+  intros HR. unfold mstep, mstep5.
+  destruct (compile p s o (ro_ret ob)) as [[s1 ms]|] eqn:CP; [|discriminate].
+  destruct (compile_sim _ _ _ _ _ _ _ HR CP) as (ss1 & -> & HR1).
+  destruct (run_micro p s1 ms) as [s2 ms2] eqn:RM.
+  destruct (run_sim _ _ _ _ _ _ HR1 RM) as (ss2 & -> & HR2).
+  destruct (lrun p sc 0%nat (s2, [FK ms2]) (ro_log ob)) as [[s3 stk]|] eqn:L; [|discriminate].
+  assert (C0 : Rc (s2, [FK ms2]) (ss2, [FK (pi ms2)])).
+  { split; [exact HR2|]. cbn [snd]. constructor; [reflexivity|constructor]. }
+  destruct (lrun_sim _ _ _ _ _ _ _ C0 L) as ([ss3 sstk] & -> & HR3 & HF). cbn [fst snd] in HR3, HF.
+  destruct stk as [|[[|m ms3]|] [|]]; try discriminate.
+  inversion HF as [|f f5 l l5 F1 F2]; subst. inversion F2; subst. apply frel_FK in F1. subst f5.
+  destruct m as [i0|i0|k0 i0 e0|e0 ty0 i0 d0|r0 x0| | |gs]; try discriminate.
+  - (* returned *)
+    destruct ms3; [|discriminate]. cbn [pi flat_map pim app].
+    destruct (oz_eqb (ro_ret ob) r0 && (ro_exc ob =? x0)); [|discriminate]. intros [= <-].
+    eexists. split; [reflexivity|]. destruct o; try exact HR3. now apply R_prune.
+  - (* process() raised out of the drain *)
+    rewrite pi_keep by reflexivity.
+    destruct (ro_ret ob) as [f|]; [|discriminate].
+    destruct (zmem f (dead s3)) eqn:ZF; [|discriminate].
+    destruct (amem f (ents s3)) eqn:AF; [discriminate|]. cbn [negb andb].
+    destruct (ro_exc ob =? 1); [|discriminate]. intros [= <-].
+    assert (FB : zmem f (bad ss3) = true).
+    { apply zmem_In. apply (R_bad _ _ HR3); [now apply zmem_In|exact AF]. }
+    rewrite FB. cbn [andb]. eexists. split; [reflexivity|].
+    destruct HR3 as [H1 H2 H3 H4 H5]. constructor; rcbn; try congruence.
+    intros x Hx T. apply In_zrem in Hx. destruct Hx as [N Hx]. apply In_zrem. split; [exact N|].
+    now apply H5.
+  - (* the setter returned *)
+    destruct ms3 as [|[i1|i1|k1 i1 e1|e1 ty1 i1 d1|r1 x1| | |gs1] [|]]; try discriminate.
+    change (pi [MRelease gs; MRet r1 x1]) with [MRelease []; MRet r1 x1].
+    destruct (forallb nil_b gs); [|discriminate]. cbn [andb].
+    destruct (oz_eqb (ro_ret ob) r1 && (ro_exc ob =? x1)); [|discriminate]. intros [= <-].
+    eexists. split; [reflexivity|exact HR3].
+  - destruct m; try (intros X; discriminate X); destruct ms3; intros X; cbn in X; try discriminate X;
+      destruct m; try discriminate X; destruct ms3; discriminate X.
+Qed.
+
+Lemma rstep_sim p sc s ss o ob s' :
+  R s ss -> rstep p sc s o ob = Some s' -> exists ss', rstep5 p ss o ob = Some ss' /\ R s' ss'.
+Proof.
+  intros HR. unfold rstep, rstep5, use_machine, use_machine5. rewrite <- (R_en _ _ HR).
+  destruct (enabled s || _).
+  - destruct (mstep p sc s o ob) as [s1|] eqn:M; [|discriminate].
+    destruct (forallb (qcheck s1) (ro_qs ob)) eqn:Q; [|discriminate]. intros [= <-].
+    destruct (mstep_sim _ _ _ _ _ _ _ HR M) as (ss1 & -> & HR1).
+    replace (forallb (qcheck5 ss1) (ro_qs ob)) with true; [eauto|].
+    symmetry. apply forallb_forall. intros q Hq. eapply qcheck_sim; [exact HR1|].
+    eapply forallb_forall in Q; eauto.
+  - apply step_sim. exact HR.
+Qed.
+
+Lemma rrun_sim p sc tr : forall s ss s',
+  R s ss -> rrun p sc s tr = Some s' -> exists ss', rrun5 p ss tr = Some ss'.
+Proof.
+  induction tr as [|[o ob] tr IH]; intros s ss s' HR; cbn [rrun rrun5].
+  - eauto.
+  - destruct (rstep p sc s o ob) as [s1|] eqn:E; [|discriminate]. intros H.
+    destruct (rstep_sim _ _ _ _ _ _ _ HR E) as (ss1 & -> & HR1). eapply IH; eauto.
+Qed.
+
+Theorem raccepts_rholds c : raccepts c = true -> rholds_b c = true.
+Proof.
+  unfold raccepts, rholds_b.
+  destruct (rrun (r_p c) (r_scr c) init (r_tr c)) as [s'|] eqn:E; [|discriminate]. intros _.
+  destruct (rrun_sim _ _ _ _ _ _ R_init E) as [ss' ->]. reflexivity.
+Qed.
+
+Theorem xaccepts_xholds c : xaccepts c = true -> xholds c.
+Proof.
+  unfold xholds. destruct c as [c|c]; cbn [xaccepts xholds_b].
+  - apply accepts_holds.
+  - apply raccepts_rholds.
+Qed.
